@@ -310,6 +310,11 @@ func scalarReflectFromGo(schema *schema_j5pb.Field, value interface{}) (protoref
 			if err != nil {
 				return pv, err
 			}
+			// ParseFloat also reads "Infinity", "inf" and "NaN": not numbers
+			// of the wire format, and nothing the encoder could write back
+			if f, ok := value.(float64); ok && (math.IsNaN(f) || math.IsInf(f, 0)) {
+				return pv, fmt.Errorf("%q is not a finite number", val)
+			}
 		}
 
 		rv := reflect.ValueOf(value)
